@@ -60,6 +60,8 @@ pub enum MarkKind {
     EntryLine { line_start: usize, indent: usize, parent_indent: isize, first: bool },
     /// a content-bearing continuation line inside a multi-line flow collection
     FlowContLine { line_start: usize, indent: usize, block_n: isize },
+    /// a scalar written on one line inside a flow collection that is nested in a block at `block_n` >= 0
+    FlowScalar { start: usize, end: usize, block_n: isize },
     /// a plain, single-line implicit key (block mapping, or single pair in a flow sequence)
     PlainKey { start: usize, end: usize, flow_seq_pair: bool, in_flow: bool },
     /// a plain scalar node without properties that is not a key
@@ -310,6 +312,9 @@ impl<'r> Renderer<'r> {
         let start = self.out.len();
         self.out.push_str(&s);
         let end = self.out.len();
+        if ctx.in_flow && !ctx.top_level && !s.contains('\n') {
+            self.marks.push(Mark { kind: MarkKind::FlowScalar { start, end, block_n: ctx.cont_min as isize - 1 } });
+        }
         match st {
             FStyle::Plain => {
                 if !s.contains('\n') {
